@@ -121,3 +121,211 @@ Proof.
   intros Hg H1 H2 H3 H4 (Hn & HT & HI & HS). split; [now apply nf_set_ti|].
   split; [eapply InvT_set_ti; eauto|]. split; [eapply InvI_set_ti; eauto|eapply InvS_set_ti; eauto].
 Qed.
+
+(* ---------- counting ---------- *)
+Lemma cnt_i_app t a b : cnt_i t (a ++ b) = (cnt_i t a + cnt_i t b)%nat.
+Proof. unfold cnt_i. now rewrite filter_app, app_length. Qed.
+Lemma cnt_i_cons t rq l : cnt_i t (rq :: l) = ((if for_task t rq then 1 else 0) + cnt_i t l)%nat.
+Proof. unfold cnt_i. cbn [filter]. now destruct (for_task t rq). Qed.
+Lemma cnt_i_nil t : cnt_i t [] = 0%nat. Proof. reflexivity. Qed.
+Lemma cnt_i_rev t l : cnt_i t (rev l) = cnt_i t l.
+Proof. induction l as [|x l IH]; auto. cbn [rev]. rewrite cnt_i_app, cnt_i_cons, cnt_i_cons, cnt_i_nil, IH. lia. Qed.
+Lemma cnt_s_app k a b : cnt_s k (a ++ b) = (cnt_s k a + cnt_s k b)%nat.
+Proof. unfold cnt_s. now rewrite filter_app, app_length. Qed.
+Lemma cnt_s_cons k rq l : cnt_s k (rq :: l) = ((if for_rule k rq then 1 else 0) + cnt_s k l)%nat.
+Proof. unfold cnt_s. cbn [filter]. now destruct (for_rule k rq). Qed.
+Lemma cnt_s_nil k : cnt_s k [] = 0%nat. Proof. reflexivity. Qed.
+Lemma cnt_s_rev k l : cnt_s k (rev l) = cnt_s k l.
+Proof. induction l as [|x l IH]; auto. cbn [rev]. rewrite cnt_s_app, cnt_s_cons, cnt_s_cons, cnt_s_nil, IH. lia. Qed.
+
+Lemma for_task_mk t t' slot inp o sg : for_task t (mkIReq (Some t') slot inp o sg) = N.eqb t t'.
+Proof. reflexivity. Qed.
+
+Lemma cnt_i_zero_forall t l : (forall rq, In rq l -> iq_task rq <> Some t) -> cnt_i t l = 0%nat.
+Proof.
+  induction l as [|rq l IH]; auto. intros H. rewrite cnt_i_cons, IH; [|intros; apply H; now right].
+  unfold for_task. specialize (H rq (or_introl eq_refl)). destruct (iq_task rq) as [t'|]; auto.
+  destruct (N.eqb t t') eqn:E; auto. apply N.eqb_eq in E. subst. contradiction.
+Qed.
+Lemma cnt_i_pos_in t l : (0 < cnt_i t l)%nat -> exists rq, In rq l /\ iq_task rq = Some t.
+Proof.
+  induction l as [|rq l IH]; [cbn; lia|]. rewrite cnt_i_cons. unfold for_task at 1. destruct (iq_task rq) as [t'|] eqn:E.
+  - destruct (N.eqb t t') eqn:E2.
+    + apply N.eqb_eq in E2. subst. intros _. exists rq. split; [now left|auto].
+    + intros H. destruct IH as (x & Hin & Hx); [lia|]. exists x. split; [now right|auto].
+  - intros H. destruct IH as (x & Hin & Hx); [lia|]. exists x. split; [now right|auto].
+Qed.
+
+(* waitCount of a waiting task that is not queued as ready changes (to a non-zero value, or the task is still being started) *)
+Lemma InvT_set_wait c s t ti n : aget (is_tasks s) t = Some ti -> kind_of s t = KWaiting -> ~ In t (is_ready s) ->
+  (n <> 0%nat \/ cx_ex c = Some t) -> InvT c s -> InvT c (set_ti s t (ti_with_wait n ti)).
+Proof.
+  intros Hg Hk Hnr Hn [A1 A2 A3 A4 A5 A6 A7 A8 A9 A10 A11].
+  constructor; autorewrite with iv; auto.
+  - now apply nodup_aset.
+  - intros t'. rewrite (aget_aset_exists _ _ _ _ _ Hg). apply A5.
+  - intros t' x. rewrite aget_aset. destruct (N.eqb t' t) eqn:E; [|apply A6].
+    apply N.eqb_eq in E. subst. intros _ Hc. change (kind_of (set_ti s t (ti_with_wait n ti)) t) with (kind_of s t) in Hc. congruence.
+  - intros t' Hin. destruct (A7 t' Hin) as (x & Hx & Hk' & Hw0). rewrite aget_aset. destruct (N.eqb t' t) eqn:E; [|eauto].
+    apply N.eqb_eq in E. subst. contradiction.
+  - intros t' x. rewrite aget_aset. destruct (N.eqb t' t) eqn:E; [|apply A8].
+    apply N.eqb_eq in E. subst. intros Hx _ Hw. inversion Hx. subst. cbn [ti_wait ti_with_wait] in Hw. destruct Hn; [contradiction|auto].
+  - intros t' Hin. destruct (A9 t' Hin) as (x & Hx & Hk' & Hp0). rewrite aget_aset. destruct (N.eqb t' t) eqn:E; [|eauto].
+    apply N.eqb_eq in E. subst. congruence.
+  - intros t' x. rewrite aget_aset. destruct (N.eqb t' t) eqn:E; [|apply A10].
+    apply N.eqb_eq in E. subst. intros Hx. inversion Hx. subst. cbn [ti_pending ti_with_wait]. now apply A10.
+  - rewrite A11. unfold n_computing. autorewrite with iv. symmetry.
+    apply (filter_keys_aset (fun k => kind_eqb (kind_of s k) KComputing) (is_tasks s) t ti _ Hg).
+Qed.
+
+Lemma ireq_ok_push_inreq rules s rq0 rq : ireq_ok rules s rq -> ireq_ok rules (push_inreq s rq0) rq.
+Proof. auto. Qed.
+
+(* addTaskInputRequest on a waiting task: one more request in inputRequests, waitCount + 1 *)
+Lemma InvI_request rules c s t ti rq : aget (is_tasks s) t = Some ti -> iq_task rq = Some t -> In (iq_input rq) (requestable (rules t)) ->
+  InvI rules c s -> InvI rules c (set_ti (push_inreq s rq) t (ti_inc_wait ti)).
+Proof.
+  intros Hg Hrq Hin [B1 B2 B3 B4 B5 B6 B7 B8 B9 B10].
+  assert (Hg' : aget (is_tasks (push_inreq s rq)) t = Some ti) by exact Hg.
+  assert (Hok : forall x, ireq_ok rules s x -> ireq_ok rules (set_ti (push_inreq s rq) t (ti_inc_wait ti)) x).
+  { intros x Hx. eapply ireq_ok_set_ti; eauto. }
+  constructor; autorewrite with iv; auto.
+  - intros t' x Hx. pose proof (outstanding_count_set_ti (push_inreq s rq) t ti (ti_inc_wait ti) t' Hg') as Ho.
+    cbn [ti_reqby ti_inc_wait ti_with_wait] in Ho.
+    assert (Hc : outstanding_count (push_inreq s rq) t' = (outstanding_count s t' + if N.eqb t' t then 1 else 0)%nat).
+    { unfold outstanding_count. autorewrite with iv. rewrite cnt_i_app, cnt_i_cons, cnt_i_nil. unfold for_task. rewrite Hrq. lia. }
+    rewrite aget_aset in Hx. destruct (N.eqb t' t) eqn:E.
+    + apply N.eqb_eq in E. subst. inversion Hx. subst. cbn [ti_wait ti_inc_wait ti_with_wait]. rewrite (B1 t ti Hg). lia.
+    + rewrite (B1 t' x Hx). lia.
+  - eapply Forall_impl; [apply Hok|auto].
+  - apply Forall_app. split; [eapply Forall_impl; [apply Hok|auto]|]. constructor; [|constructor].
+    intros t' Ht'. rewrite Hrq in Ht'. inversion Ht'. subst. split; auto. autorewrite with iv. rewrite aget_aset_same. discriminate.
+  - intros k. eapply Forall_impl; [apply Hok|apply B4].
+  - intros t' x. rewrite aget_aset. destruct (N.eqb t' t) eqn:E; intros Hx.
+    + apply N.eqb_eq in E. inversion Hx. subst. cbn [ti_reqby ti_inc_wait ti_with_wait]. eapply Forall_impl; [apply Hok|eauto].
+    + eapply Forall_impl; [apply Hok|eauto].
+  - eapply Forall_impl; [apply Hok|auto].
+  - intros t' x r. rewrite aget_aset. destruct (N.eqb t' t) eqn:E; intros Hx.
+    + apply N.eqb_eq in E. inversion Hx. subst. cbn [ti_reqby ti_inc_wait ti_with_wait]. now apply B9.
+    + now apply B9.
+Qed.
+
+(* ---------- queue updates that a part of the invariant does not look at ---------- *)
+Ltac frameT s0 := apply (InvT_frame _ s0); auto.
+Ltac frameI s0 := apply (InvI_frame _ _ s0); auto.
+Ltac frameS s0 := apply (InvS_frame _ s0); auto.
+
+Lemma InvT_upd_inreq c s q : InvT c s -> InvT c (upd_inreq s q).
+Proof. intros H. frameT s; try apply H. Qed.
+Lemma InvT_push_inreq c s rq : InvT c s -> InvT c (push_inreq s rq).
+Proof. apply InvT_upd_inreq. Qed.
+Lemma InvT_upd_fininreq c s q : InvT c s -> InvT c (upd_fininreq s q).
+Proof. intros H. frameT s; try apply H. Qed.
+Lemma InvT_upd_toscan c s q : InvT c s -> InvT c (upd_toscan s q).
+Proof. intros H. frameT s; try apply H. Qed.
+Lemma InvS_upd_inreq c s q : InvS c s -> InvS c (upd_inreq s q).
+Proof. intros H. frameS s. Qed.
+Lemma InvS_push_inreq c s rq : InvS c s -> InvS c (push_inreq s rq).
+Proof. apply InvS_upd_inreq. Qed.
+Lemma InvS_upd_fininreq c s q : InvS c s -> InvS c (upd_fininreq s q).
+Proof. intros H. frameS s. Qed.
+Lemma InvS_upd_ready c s q : InvS c s -> InvS c (upd_ready s q).
+Proof. intros H. frameS s. Qed.
+Lemma InvS_upd_fintasks c s q : InvS c s -> InvS c (upd_fintasks s q).
+Proof. intros H. frameS s. Qed.
+Lemma InvS_upd_outstanding c s q : InvS c s -> InvS c (upd_outstanding s q).
+Proof. intros H. frameS s. Qed.
+Lemma InvI_upd_toscan rules c s q : InvI rules c s -> InvI rules c (upd_toscan s q).
+Proof. intros H. frameI s. Qed.
+Lemma InvI_upd_ready rules c s q : InvI rules c s -> InvI rules c (upd_ready s q).
+Proof. intros H. frameI s. Qed.
+Lemma InvI_upd_fintasks rules c s q : InvI rules c s -> InvI rules c (upd_fintasks s q).
+Proof. intros H. frameI s. Qed.
+Lemma InvI_upd_outstanding rules c s q : InvI rules c s -> InvI rules c (upd_outstanding s q).
+Proof. intros H. frameI s. Qed.
+
+Lemma Inv_add_request rules c s t inp slot o sg :
+  Inv rules c s -> aget (is_tasks s) t <> None -> kind_of s t = KWaiting -> ~ In t (is_ready s) -> In inp (requestable (rules t)) ->
+  Inv rules c (add_request s t inp slot o sg).
+Proof.
+  intros H Hex Hk Hnr Hin. unfold add_request. destruct (aget (is_tasks s) t) as [ti|] eqn:Hg; [|contradiction].
+  rewrite Hk. cbn [kind_eqb negb].
+  apply (Inv_touch rules c s inp) in H. destruct H as (Hn & HT & HI & HS).
+  set (s1 := touch s inp) in *. set (rq := mkIReq (Some t) slot inp o sg).
+  assert (Hg1 : aget (is_tasks (push_inreq s1 rq)) t = Some ti) by (unfold s1; now autorewrite with iv).
+  rewrite (mod_ti_some _ _ _ _ Hg1).
+  split; [apply nf_set_ti, nf_push_inreq, Hn|]. split; [|split].
+  - apply InvT_set_wait; auto.
+    + unfold s1. change (kind_of (push_inreq (touch s inp) rq) t) with (kind_of (touch s inp) t). unfold kind_of. now autorewrite with iv.
+    + unfold s1. now autorewrite with iv.
+    + now apply InvT_push_inreq.
+  - apply InvI_request; auto; try (unfold s1; now autorewrite with iv).
+  - apply InvS_set_ti with (ti := ti); auto; try (now apply InvS_push_inreq).
+Qed.
+
+(* what addTaskInputRequest leaves alone *)
+Lemma add_request_ready s t inp slot o sg : is_ready (add_request s t inp slot o sg) = is_ready s.
+Proof.
+  unfold add_request. destruct (aget (is_tasks s) t); [|reflexivity]. destruct (negb _); [reflexivity|].
+  unfold mod_ti. destruct (aget _ _); now autorewrite with iv.
+Qed.
+Lemma add_request_rinfo s t inp slot o sg k : rinfo_of (add_request s t inp slot o sg) k = rinfo_of s k.
+Proof.
+  unfold add_request. destruct (aget (is_tasks s) t); [|reflexivity]. destruct (negb _); [reflexivity|].
+  unfold mod_ti. destruct (aget _ _); now autorewrite with iv.
+Qed.
+Lemma add_request_kind s t inp slot o sg k : kind_of (add_request s t inp slot o sg) k = kind_of s k.
+Proof. unfold kind_of. now rewrite add_request_rinfo. Qed.
+Lemma add_request_task_exists s t inp slot o sg t' : aget (is_tasks s) t' <> None -> aget (is_tasks (add_request s t inp slot o sg)) t' <> None.
+Proof.
+  unfold add_request. destruct (aget (is_tasks s) t) eqn:Hg; [|auto]. destruct (negb _); [auto|].
+  unfold mod_ti. autorewrite with iv. rewrite Hg. autorewrite with iv. intros H. now rewrite (aget_aset_exists _ _ _ _ _ Hg).
+Qed.
+
+Lemma Inv_add_reqs rules c ks : forall s t slot sg,
+  Inv rules c s -> aget (is_tasks s) t <> None -> kind_of s t = KWaiting -> ~ In t (is_ready s) ->
+  (forall x, In x ks -> In x (requestable (rules t))) -> Inv rules c (add_reqs s t ks slot sg).
+Proof.
+  induction ks as [|x ks IH]; intros s t slot sg H Hex Hk Hnr Hin; cbn [add_reqs]; auto.
+  apply IH.
+  - apply Inv_add_request; auto. apply Hin. now left.
+  - now apply add_request_task_exists.
+  - now rewrite add_request_kind.
+  - now rewrite add_request_ready.
+  - intros y Hy. apply Hin. now right.
+Qed.
+
+Lemma Inv_add_follows rules c ks : forall s t,
+  Inv rules c s -> aget (is_tasks s) t <> None -> kind_of s t = KWaiting -> ~ In t (is_ready s) ->
+  (forall x, In x ks -> In x (requestable (rules t))) -> Inv rules c (add_follows s t ks).
+Proof.
+  induction ks as [|x ks IH]; intros s t H Hex Hk Hnr Hin; cbn [add_follows]; auto.
+  apply IH.
+  - apply Inv_add_request; auto. apply Hin. now left.
+  - now apply add_request_task_exists.
+  - now rewrite add_request_kind.
+  - now rewrite add_request_ready.
+  - intros y Hy. apply Hin. now right.
+Qed.
+
+(* the same facts for the loops *)
+Lemma add_reqs_views ks : forall s t slot sg,
+  is_ready (add_reqs s t ks slot sg) = is_ready s /\ (forall k, rinfo_of (add_reqs s t ks slot sg) k = rinfo_of s k) /\
+  (forall t', aget (is_tasks s) t' <> None -> aget (is_tasks (add_reqs s t ks slot sg)) t' <> None).
+Proof.
+  induction ks as [|x ks IH]; intros s t slot sg; cbn [add_reqs]; [auto|].
+  destruct (IH (add_request s t x slot false sg) t (S slot) sg) as (H1 & H2 & H3). repeat split.
+  - now rewrite H1, add_request_ready.
+  - intros k. now rewrite H2, add_request_rinfo.
+  - intros t' H. apply H3. now apply add_request_task_exists.
+Qed.
+Lemma add_follows_views ks : forall s t,
+  is_ready (add_follows s t ks) = is_ready s /\ (forall k, rinfo_of (add_follows s t ks) k = rinfo_of s k) /\
+  (forall t', aget (is_tasks s) t' <> None -> aget (is_tasks (add_follows s t ks)) t' <> None).
+Proof.
+  induction ks as [|x ks IH]; intros s t; cbn [add_follows]; [auto|].
+  destruct (IH (add_request s t x 0%nat true false) t) as (H1 & H2 & H3). repeat split.
+  - now rewrite H1, add_request_ready.
+  - intros k. now rewrite H2, add_request_rinfo.
+  - intros t' H. apply H3. now apply add_request_task_exists.
+Qed.
